@@ -390,12 +390,31 @@ theorem top_loop (cfg : Cfg) (hn : Anchored fl cfg.time) (hp : PosRel cfg.time) 
 /-- all expressions given to the call parse -/
 def WellFormed (cfg : Cfg) : Prop := New.parseAll cfg = true
 
-theorem legacy_first (cfg : Cfg) (hwf : WellFormed cfg) (hn : Anchored fl cfg.time) (hp : PosRel cfg.time) (q : Nat) (tb : Tables) (v0 call : Nat)
+/-- the call has no `state_hold` / `state_hold_false` (the fragment the first-of theorems speak about) -/
+def NoHolds (cfg : Cfg) : Prop := Legacy.holdTrig cfg = Option.none
+
+theorem noHolds_state (cfg : Cfg) (h : NoHolds cfg) (s : StateTrig) (hs : cfg.state = some s) :
+    s.hold = Option.none ∧ s.holdFalse = Option.none := by
+  unfold NoHolds Legacy.holdTrig at h
+  rw [hs] at h
+  simp only at h
+  cases hh : s.hold <;> cases hf : s.holdFalse <;> simp [hh, hf] at h ⊢
+
+theorem legacy_waitLoop_noHolds (cfg : Cfg) (h : NoHolds cfg) (v0 call : Nat) (hist : Hist) :
+    Legacy.waitLoop fl cfg v0 call hist = Legacy.loop fl cfg call hist call := by
+  unfold Legacy.waitLoop; rw [h]
+
+theorem new_waitLoop_noHolds (cfg : Cfg) (h : NoHolds cfg) (v0 call : Nat) (hist : Hist) :
+    New.waitLoop fl cfg v0 call hist = New.loop fl cfg call hist := by
+  unfold New.waitLoop; rw [h]
+
+theorem legacy_first (cfg : Cfg) (hwf : WellFormed cfg) (hnh : NoHolds cfg) (hn : Anchored fl cfg.time) (hp : PosRel cfg.time) (q : Nat) (tb : Tables) (v0 call : Nat)
     (hist : Hist) (hm : Mono call hist) (hnt : NoTies cfg call hist) :
     (Legacy.run fl cfg q tb v0 call hist).1 = first cfg v0 call hist := by
   unfold WellFormed New.parseAll at hwf
   simp only [Bool.and_eq_true] at hwf
   unfold Legacy.run
+  rw [legacy_waitLoop_noHolds fl cfg hnh]
   by_cases hany : (hasListen cfg || hasTime cfg) = true
   · simp only [hany, Bool.not_true, Bool.false_eq_true, if_false]
     -- set-up: only the check-now can end the call (everything parses)
@@ -419,7 +438,9 @@ theorem legacy_first (cfg : Cfg) (hwf : WellFormed cfg) (hn : Anchored fl cfg.ti
       exact htop
     | some s =>
       have hp : s.parseOK = true := by have := hwf.1.1; rw [hs] at this; exact this
-      simp only [hp, Bool.not_true, Bool.false_eq_true, if_false]
+      have hh := noHolds_state cfg hnh s hs
+      simp only [hp, Bool.not_true, Bool.false_eq_true, if_false, StateTrig.checkOnStart, StateTrig.immediate, hh.1,
+        hh.2, Option.isSome_none, Bool.or_false, Option.isNone_none, Bool.and_true]
       by_cases hc : s.checkNow = true
       · simp only [hc, if_true]
         cases hx : s.expr v0 with
@@ -523,13 +544,14 @@ theorem effTimeout_eq (cfg : Cfg) (h : fl.timeout0Absent = true → cfg.timeout 
 
 /-- the new subsystem answers as specified when the timeout is not 0 and a time trigger without future instant is
 not combined with anything else -/
-theorem new_first (cfg : Cfg) (hwf : WellFormed cfg) (htz : fl.timeout0Absent = true → cfg.timeout ≠ some 0)
+theorem new_first (cfg : Cfg) (hwf : WellFormed cfg) (hnh : NoHolds cfg) (htz : fl.timeout0Absent = true → cfg.timeout ≠ some 0)
     (hdead : fl.noneEager = true → hasTime cfg = true →
       (timeNext cfg.time call).isSome = true ∨ (hasListen cfg = false ∧ cfg.timeout = Option.none))
     (q : Nat) (tb : Tables) (v0 : Nat) (hist : Hist) (hm : Mono call hist) :
     (New.run fl cfg q tb v0 call hist).1 = first cfg v0 call hist := by
   have heff := effTimeout_eq fl cfg htz
   have hdl : New.dl fl cfg call = deadlineAt cfg call := by unfold New.dl deadlineAt; rw [heff]
+  have hwl := new_waitLoop_noHolds fl cfg hnh v0 call hist
   unfold New.run
   by_cases hk : New.noKwargs cfg = true
   · -- no argument at all
@@ -565,7 +587,7 @@ theorem new_first (cfg : Cfg) (hwf : WellFormed cfg) (htz : fl.timeout0Absent = 
       intro s t; unfold New.mqttStart; split <;> exact ⟨_, _, rfl⟩
     -- after the state stage has passed: the time stage and the wait
     have rest : ∀ (s1 : New.Started) (t1 : Tables), checkNow cfg v0 call = Option.none →
-        (New.finish fl cfg q call hist (New.afterState fl cfg q call s1 t1)).1 = first cfg v0 call hist := by
+        (New.finish fl cfg q v0 call hist (New.afterState fl cfg q call s1 t1)).1 = first cfg v0 call hist := by
       intro s1 t1 hck
       unfold first
       rw [hck]
@@ -595,7 +617,7 @@ theorem new_first (cfg : Cfg) (hwf : WellFormed cfg) (htz : fl.timeout0Absent = 
             obtain ⟨s3, t3, h3⟩ := hev s1 t1
             simp only [h3]
             obtain ⟨s4, t4, h4⟩ := hmq s3 t3
-            simp only [h4, New.finish]
+            simp only [h4, New.finish, hwl]
             have hcond : ((deadlineAt cfg call).isNone && !hasListen cfg) = false := by
               cases hc : ((deadlineAt cfg call).isNone && !hasListen cfg) with
               | false => rfl
@@ -615,7 +637,7 @@ theorem new_first (cfg : Cfg) (hwf : WellFormed cfg) (htz : fl.timeout0Absent = 
           obtain ⟨s3, t3, h3⟩ := hev { s1 with tm := true } { t1 with tasks := t1.tasks + 1 }
           simp only [h3]
           obtain ⟨s4, t4, h4⟩ := hmq s3 t3
-          simp only [h4, New.finish]
+          simp only [h4, New.finish, hwl]
           have : (deadlineAt cfg call).isNone = false := by
             unfold deadlineAt
             cases htn : timeNext cfg.time call with
@@ -630,7 +652,7 @@ theorem new_first (cfg : Cfg) (hwf : WellFormed cfg) (htz : fl.timeout0Absent = 
         obtain ⟨s3, t3, h3⟩ := hev s1 t1
         simp only [h3]
         obtain ⟨s4, t4, h4⟩ := hmq s3 t3
-        simp only [h4, New.finish]
+        simp only [h4, New.finish, hwl]
         have hcond : ((deadlineAt cfg call).isNone && !hasListen cfg) = false := by
           cases hc : ((deadlineAt cfg call).isNone && !hasListen cfg) with
           | false => rfl
@@ -656,7 +678,9 @@ theorem new_first (cfg : Cfg) (hwf : WellFormed cfg) (htz : fl.timeout0Absent = 
       simp only
       exact rest s0 t0 (by simp [checkNow, hs])
     | some st =>
-      simp only
+      have hh := noHolds_state cfg hnh st hs
+      simp only [StateTrig.checkOnStart, StateTrig.immediate, hh.1, hh.2, Option.isSome_none, Bool.or_false,
+        Option.isNone_none, Bool.and_true]
       by_cases hc : st.checkNow = true
       · simp only [hc, if_true]
         cases hx : st.expr v0 with
@@ -752,11 +776,14 @@ theorem legacy_cleanup (cfg : Cfg) (q : Nat) (tb : Tables) (v0 call : Nat) (hist
         simp only [Option.isSome_some, if_true]
         by_cases hp : s.parseOK = true
         · simp only [hp, Bool.not_true, Bool.false_eq_true, if_false]
-          by_cases hc : s.checkNow = true
+          by_cases hc : s.checkOnStart = true
           · simp only [hc, if_true]
             cases s.expr v0 with
             | none => exact Or.inl ⟨_, rfl⟩
-            | some b => cases b <;> simp
+            | some b =>
+              cases b with
+              | true => by_cases hi : s.immediate = true <;> simp [hi]
+              | false => simp
           · simp [hc]
         · simp only [Bool.not_eq_true] at hp
           simp [hp]
@@ -923,13 +950,17 @@ theorem New.start_cases (cfg : Cfg) (q : Nat) (tb : Tables) (v0 call : Nat) (hf 
       simp only [happ]
       have hstop : New.stopAll q { to := b, st := true } (New.applied q { to := b, st := true } tb) = tb :=
         New.stopAll_applied q _ tb hf
-      by_cases hc : st.checkNow = true
+      by_cases hc : st.checkOnStart = true
       · simp only [hc, if_true]
         cases st.expr v0 with
         | none => left; exact ⟨.exc call .eval, by simp [New.Stage.andThen, hstop]⟩
         | some bb =>
           cases bb with
-          | true => left; exact ⟨.ret call (.state Option.none), by simp [New.Stage.andThen, hstop]⟩
+          | true =>
+            by_cases hi : st.immediate = true
+            · left; exact ⟨.ret call (.state Option.none), by simp [New.Stage.andThen, hstop, hi]⟩
+            · simp only [hi, Bool.false_eq_true, if_false, New.Stage.andThen]
+              exact tail { to := b, st := true } rfl rfl rfl
           | false =>
             simp only [New.Stage.andThen]
             exact tail { to := b, st := true } rfl rfl rfl
@@ -1097,11 +1128,12 @@ theorem sleep_after (call T : Nat) (hist later : Hist)
       | state v => exact ih hl
       | event d => exact ih hl
 
-theorem legacy_run_after (cfg : Cfg) (q : Nat) (tb : Tables) (v0 call : Nat) (hist later : Hist)
+theorem legacy_run_after (cfg : Cfg) (hnh : NoHolds cfg) (q : Nat) (tb : Tables) (v0 call : Nat) (hist later : Hist)
     (hne : (Legacy.run fl cfg q tb v0 call hist).1 ≠ .waiting)
     (hl : ∀ p ∈ later, exitTime (Legacy.run fl cfg q tb v0 call hist).1 < p.1) :
     Legacy.run fl cfg q tb v0 call (hist ++ later) = Legacy.run fl cfg q tb v0 call hist := by
   unfold Legacy.run at hne hl ⊢
+  simp only [legacy_waitLoop_noHolds fl cfg hnh] at hne hl ⊢
   by_cases hany : (hasListen cfg || hasTime cfg) = true
   · simp only [hany, Bool.not_true, Bool.false_eq_true, if_false] at hne hl ⊢
     cases hs : Legacy.setup fl cfg q tb v0 call with
@@ -1117,7 +1149,7 @@ theorem legacy_run_after (cfg : Cfg) (q : Nat) (tb : Tables) (v0 call : Nat) (hi
       simp only [ht] at hl ⊢
       rw [sleep_after call T hist later hl]
 
-theorem new_run_after (cfg : Cfg) (q : Nat) (tb : Tables) (v0 call : Nat) (hist later : Hist)
+theorem new_run_after (cfg : Cfg) (hnh : NoHolds cfg) (q : Nat) (tb : Tables) (v0 call : Nat) (hist later : Hist)
     (hne : (New.run fl cfg q tb v0 call hist).1 ≠ .waiting)
     (hl : ∀ p ∈ later, exitTime (New.run fl cfg q tb v0 call hist).1 < p.1) :
     New.run fl cfg q tb v0 call (hist ++ later) = New.run fl cfg q tb v0 call hist := by
@@ -1134,7 +1166,7 @@ theorem new_run_after (cfg : Cfg) (q : Nat) (tb : Tables) (v0 call : Nat) (hist 
         cases hs : New.start fl cfg q tb v0 call with
         | error r => rfl
         | ok p =>
-          simp only [hs, New.finish] at hne hl ⊢
+          simp only [hs, New.finish, new_waitLoop_noHolds fl cfg hnh] at hne hl ⊢
           rw [new_loop_after fl cfg call hist later hne hl]
 
 /-! ## cancellation keeps every subscription (the general form of findings F1 / F2) -/
@@ -1149,14 +1181,17 @@ theorem Legacy.stateStage_ok (cfg : Cfg) (q : Nat) (tb : Tables) (v0 call : Nat)
     simp only [Option.isSome_some, if_true]
     by_cases hp : s.parseOK = true
     · simp only [hp, Bool.not_true, Bool.false_eq_true, if_false] at h
-      by_cases hc : s.checkNow = true
+      by_cases hc : s.checkOnStart = true
       · simp only [hc, if_true] at h
         cases hx : s.expr v0 with
         | none => rw [hx] at h; simp at h
         | some b =>
           rw [hx] at h
           cases b with
-          | true => simp at h
+          | true =>
+            by_cases hi : s.immediate = true
+            · simp [hi] at h
+            · simp [hi] at h; exact h.symm
           | false => simp at h; exact h.symm
       · simp only [hc, Bool.false_eq_true, if_false] at h
         simp at h; exact h.symm
@@ -1240,7 +1275,11 @@ theorem legacy_cancel_keeps (cfg : Cfg) (q : Nat) (tb : Tables) (v0 call : Nat) 
               | some b =>
                 rw [hx] at h1
                 cases b with
-                | true => simp at h1; rw [← h1] at hc; simp at hc
+                | true =>
+                  simp only at h1
+                  split at h1
+                  · simp at h1; rw [← h1] at hc; simp at hc
+                  · simp at h1
                 | false => simp at h1
             · simp at h1
       | ok t1 =>
@@ -1351,13 +1390,16 @@ theorem new_cancel_keeps (cfg : Cfg) (q : Nat) (tb : Tables) (v0 call : Nat) (hi
             | none => simp only [New.Stage.andThen]; exact hne _ _ _
             | some st =>
               simp only
-              by_cases hcn : st.checkNow = true
+              by_cases hcn : st.checkOnStart = true
               · simp only [hcn, if_true]
                 cases st.expr v0 with
                 | none => simp [New.Stage.andThen]
                 | some b =>
                   cases b with
-                  | true => simp [New.Stage.andThen]
+                  | true =>
+                    by_cases hi : st.immediate = true
+                    · simp [New.Stage.andThen, hi]
+                    · simp only [hi, Bool.false_eq_true, if_false, New.Stage.andThen]; exact hne _ _ _
                   | false => simp only [New.Stage.andThen]; exact hne _ _ _
               · simp only [hcn, Bool.false_eq_true, if_false, New.Stage.andThen]; exact hne _ _ _
           by_cases hto : (New.effTimeout fl cfg).isSome = true
